@@ -63,7 +63,7 @@ Example C18_demo :
   let frame := [129; 2; 104; 105] in
   let all := resp ++ frame in
   let tr := [TChunk (ztake 10 all); TChunk (zsub 10 (zlen resp - 2) all); TChunk (zdrop (zlen resp - 2) all)] in
-  handshake hs_init tr [97;98;99] = (mkhs 1 frame, 0, []) /\
-  handshake hs_init tr [97;98;100] = (mkhs 5 frame, 1, []) /\
-  handshake hs_init [TChunk (ztake 30 all)] [97;98;99] = (mkhs 5 [], 2, []).
+  handshake hs_init tr [97;98;99] = (mkhs 1 frame 1024, 0, []) /\
+  handshake hs_init tr [97;98;100] = (mkhs 5 frame 1024, 1, []) /\
+  handshake hs_init [TChunk (ztake 30 all)] [97;98;99] = (mkhs 5 [] 1024, 2, []).
 Proof. vm_compute. auto. Qed.
